@@ -24,7 +24,8 @@ PROP = dict(
          "chewing_handle_Default and the 19 named handlers, Numlock / CtrlNum keys, 13 integer options with valid and invalid "
          "values, 17 keyboard types by number and by name, 3 engines switched mid-composition, page size 1..10, threshold "
          "0..39, candidate calls with indices -1 / huge, user-phrase add / remove / lookup / enumerate / get with short caller "
-         "buffers, reset / clean calls; every getter after every call; tests/data and the built-in dictionary), each call under a "
+         "buffers, enumerations left pending across dictionary updates, keyboard-type enumerations read up to 600 times past "
+         "their end, reset / clean calls; every getter after every call; tests/data and the built-in dictionary), each call under a "
          "1 s CPU-time + 10 s wall watchdog",
     trusted_base=[
         "hook H1 (Editor::verif_snapshot, TrieBuf::verif_snapshot) is read-only; the layout and conversion answers of each step "
@@ -94,7 +95,9 @@ MANIFEST = dict(
          "keyboard types, 3 engines mid-composition, candidate and user-phrase calls with hostile arguments, every getter after "
          "every call); failures are classified by the state predicate only (known class no-word-for-buffered-syllable, else "
          "new with the call history as replay). Defects repaired by fix: commits: F01 full-width unwrap, F04 candidate offset "
-         "overflow, F06 userphrase_get short buffer, F40 (new, found by the campaign) Editor::select auto-commits under an open list, F41 (new, found by the proof attempt) init_single_word origin.",
+         "overflow, F06 userphrase_get short buffer, F40 (new, found by the campaign) Editor::select auto-commits under an open list, F41 (new, found by the proof attempt) init_single_word origin, "
+         "F42 (found by the C15 builder) keyboard-type counter overflow after 256 reads, F22 (C15) pending user-phrase enumeration "
+         "read after a dictionary update.",
     note="Trusted: Lean kernel (axioms propext, Classical.choice, Quot.sound), read-only snapshot hooks, harness + compiled model "
          "driver, the process-level watchdog. EnvOK.convert_ok is C03's nonempty_result + alt_chain + one_char_per_symbol + "
          "fuel_suffices (proved there for the engine model, under ScoreBound = at most 128 symbols and frequencies <= 2^23; the "
